@@ -15,6 +15,8 @@ pub fn dispatch(op: &str, req: &Value) -> Value {
         "bump" => bump(req),
         "branch_rules" => branch_rules(req),
         "template" => template(req),
+        "parts" => parts(req),
+        "context" => context(req),
         _ => json!({"error": format!("unknown op {op}")}),
     }
 }
@@ -275,4 +277,32 @@ fn template(req: &Value) -> Value {
             Err(e) => json!({"ok": false, "err": e.to_string()}),
         }
     }
+}
+
+fn ostr(o: Option<String>) -> Value { match o { Some(s) => string_to_cps(&s), None => Value::Null } }
+
+fn parts(req: &Value) -> Value {
+    if !req["v"].is_null() {
+        let v = semver_from_json(&req["v"]);
+        json!({"full": string_to_cps(&v.to_string()), "base": string_to_cps(&v.to_base_part()), "pre": ostr(v.to_pre_release_part()),
+            "build": ostr(v.to_build_part()), "docker": string_to_cps(&v.to_docker_format())})
+    } else {
+        let p = pep440_from_json(&req["p"]);
+        json!({"full": string_to_cps(&p.to_string()), "base": string_to_cps(&p.to_base_part()), "pre": ostr(p.to_pre_release_part()),
+            "build": ostr(p.to_build_part())})
+    }
+}
+
+fn context(req: &Value) -> Value {
+    use zerv::cli::utils::template::ZervTemplateContext;
+    let sch = &req["schema"];
+    let schema = match ZervSchema::new(comps(&sch[0]), comps(&sch[1]), comps(&sch[2])) { Ok(s) => s, Err(e) => return json!({"error": e.to_string()}) };
+    let zerv = Zerv { schema, vars: vars_of(&req["vars"]) };
+    let c = ZervTemplateContext::from_zerv(&zerv);
+    let s: SemVer = zerv.clone().into();
+    let p: PEP440 = zerv.clone().into();
+    json!({"semver": string_to_cps(&c.semver), "pep440": string_to_cps(&c.pep440), "semver_direct": string_to_cps(&s.to_string()), "pep440_direct": string_to_cps(&p.to_string()),
+        "sv_base": string_to_cps(&c.semver_obj.base_part), "sv_pre": ostr(c.semver_obj.pre_release_part), "sv_build": ostr(c.semver_obj.build_part), "docker": string_to_cps(&c.semver_obj.docker),
+        "pp_base": string_to_cps(&c.pep440_obj.base_part), "pp_pre": ostr(c.pep440_obj.pre_release_part), "pp_build": ostr(c.pep440_obj.build_part),
+        "major": c.major, "minor": c.minor, "patch": c.patch, "epoch": c.epoch, "post": c.post, "dev": c.dev, "distance": c.distance})
 }
